@@ -119,7 +119,9 @@ def roundtrip_post(pre, args, kwargs, result):
     # defaults are kept (node by node, modulo the names of generated ids)
     d1, d2 = defaults_of(self, graph, top, info), defaults_of(back, g2, t2, i2)
     if d1 or d2 or is_cfg:
-        ctx.check(d1 == d2, "defaults-kept", lambda: dict(wit, before=d1, after=d2), facts)
+        # every default of the original is still there (the copy may carry the same default on a helper node as well: the
+        # inner Any of a defaulted Xor receives it from the Xor -- seen with models built by the repository's own tests)
+        ctx.check(set(map(repr, d1)) <= set(map(repr, d2)), "defaults-kept", lambda: dict(wit, before=d1, after=d2), facts)
     if is_cfg:
         c14.clear_caches()
         p1 = self.to_ge_polyhedron(True)
